@@ -237,6 +237,11 @@ func (s *attackSim) observe(ar *simrt.Arrival) {
 				s.fail("C04", "C04.elapsed-stale", "elapsed=%v is older than the end of the previous wait (%v)", el, lo)
 			}
 		}
+		// Unless the controller itself held the loop at a breakpoint in this very phase (between its clock
+		// read and this call), the clock was read in this phase: elapsed is the true elapsed time.
+		if rs, held := s.bpRelStep[ar.Actor]; !(held && rs == ar.Step) && s.haveSlack && el < now-s.atkStart-s.startSlack {
+			s.fail("C04", "C04.elapsed-not-current", "pacer consulted with elapsed=%v although %v have passed since the attack started and nothing delayed the loop between reading the clock and the call", el, now-s.atkStart-s.startSlack)
+		}
 		s.prevElapsed = el
 		if s.S > s.P {
 			s.fail("C04", "C04.started-gt-released", "%d hits started but only %d released by the pacer", s.S, s.P)
@@ -697,6 +702,7 @@ func (s *attackSim) perform(a action) {
 		w.Log.Addf("%d rel-stop a%d", w.Step, ar.Actor)
 		w.Release(ar, 1, nil)
 	case simrt.KBP:
+		s.bpRelStep[ar.Actor] = w.Step
 		if s.bpSkips[ar.Site] > 0 {
 			s.bpSkips[ar.Site]--
 		}
